@@ -52,7 +52,7 @@ class RecExch(ExchangeMove):
             _Rec.depth -= 1
         n1 = len(context.atoms)
         if n1 > n0:
-            ev = {"dir": "ins", "lab": NOLAB, "ok": True}
+            ev = {"dir": "ins", "lab": NOLAB, "ok": True, "size": int(n1 - n0)}
         elif n1 < n0:
             idx = np.asarray(context._deleted_indices, dtype=int)[nd0:]
             lab = int(lab0[idx[0]]) if len(idx) and idx[0] < len(lab0) else NOLAB
@@ -68,7 +68,7 @@ class RecExch(ExchangeMove):
     def attempt_addition(self, context):
         r = super().attempt_addition(context)
         if _Rec.depth == 0:  # called directly by a composite exchange move
-            _Rec.log.append({"m": id(self), "k": "exch", "dir": "ins", "lab": NOLAB, "ok": bool(len(r))})
+            _Rec.log.append({"m": id(self), "k": "exch", "dir": "ins", "lab": NOLAB, "ok": bool(len(r)), "size": int(len(r))})
         return r
 
 
@@ -146,6 +146,13 @@ class Recorder:
         ev.update(kw)
         cands = [s["refreshed_raw"] for s in _Rec.log if s.get("refreshed_raw") is not None]
         ev["s"] = self.P.state(extra_mom_candidates=cands)
+        # sizes of the particles inserted by the trial in progress (not observable in the context: taken from the
+        # insertions the recording moves saw); cleared with the other pending bookkeeping at the end of the trial
+        if a == "call":
+            self.addsz = [int(x["size"]) for x in ev["subs"] if x["k"] == "exch" and x.get("dir") == "ins" and x["ok"]]
+        elif a in ("yield", "end"):
+            self.addsz = []
+        ev["s"]["addsz"] = list(getattr(self, "addsz", []))
         self.events.append(ev)
 
     def subs_for(self, name):
@@ -167,10 +174,10 @@ class Recorder:
                 if k < len(idx) and idx[k] < len(lab):
                     lb = int(lab[idx[k]])
                     cnt = int((lab == lb).sum())
-                    out.append({"k": "exch", "dir": "del", "lab": lb, "ok": True, "refreshed": []})
+                    out.append({"k": "exch", "dir": "del", "lab": lb, "ok": True, "refreshed": [], "size": 0})
                     k += cnt
                 else:
-                    out.append({"k": "exch", "dir": "del", "lab": NOLAB, "ok": False, "refreshed": []})
+                    out.append({"k": "exch", "dir": "del", "lab": NOLAB, "ok": False, "refreshed": [], "size": 0})
             return out
         byid: dict[int, list] = {}
         for e in log:
@@ -179,13 +186,13 @@ class Recorder:
             q = byid.get(id(m), [])
             if q:
                 e = q.pop(0)
-                out.append({"k": e["k"], "dir": e.get("dir", ""), "lab": e.get("lab", NOLAB), "ok": e["ok"],
+                out.append({"k": e["k"], "dir": e.get("dir", ""), "lab": e.get("lab", NOLAB), "ok": e["ok"], "size": int(e.get("size", 0)),
                             "refreshed": self.P.mom_id(e["refreshed_raw"]) if e.get("refreshed_raw") is not None else []})
             else:
                 # element not called (composite skipped it: no candidate) or a user move
                 kind = move_kind(m)
                 ok = bool(getattr(m, "last_result", False)) if kind == "user" else False
-                out.append({"k": kind, "dir": "ins" if kind == "exch" else "", "lab": NOLAB, "ok": ok, "refreshed": []})
+                out.append({"k": kind, "dir": "ins" if kind == "exch" else "", "lab": NOLAB, "ok": ok, "refreshed": [], "size": 0})
         return out
 
     def moved_info(self, name):
@@ -239,6 +246,7 @@ class Recorder:
                   "exc": f"{type(ex).__name__}: {str(ex)[:160]}"}
             try:
                 ev["s"] = self.P.state()
+                ev["s"]["addsz"] = []
             except Exception:  # noqa: BLE001
                 ev["s"] = self.events[-1]["s"]
             self.events.append(ev)
